@@ -30,6 +30,9 @@ type Obligation struct {
 	Cover  bool     `json:"cover,omitempty"`
 	Inputs map[string]string `json:"inputs,omitempty"` // term for each parameter, to extract models
 	Query  string   `json:"-"`
+	InputTypes map[string]types.Type `json:"-"`
+	fn     *ssa.Function
+	pi     *PkgInfo
 }
 
 type Exec struct {
@@ -50,6 +53,7 @@ type Exec struct {
 	havocked map[string]bool // uncontracted callees treated as havoc
 	pureMode int             // >0 while evaluating a pure closure application: no obligations
 	inputs   map[string]string
+	inputTypes map[string]types.Type
 	notes    []string
 	plans    map[*ssa.Function]*lazyPlan
 }
@@ -64,7 +68,7 @@ func (x *Exec) emit(st *State, kind, site, goal, src string) {
 	fname := x.fn.RelString(x.fn.Pkg.Pkg)
 	name := fmt.Sprintf("%s.%s#%s#%s", x.fn.Pkg.Pkg.Name(), fname, kind, site)
 	o := &Obligation{Name: name, Kind: kind, Func: fname, Label: x.label, Src: src, Goal: goal,
-		Hyps: append([]string(nil), st.pc...), Path: describePath(st.path), Inputs: x.inputs}
+		Hyps: append([]string(nil), st.pc...), Path: describePath(st.path), Inputs: x.inputs, InputTypes: x.inputTypes, fn: x.fn, pi: x.pkg}
 	x.obls = append(x.obls, o)
 }
 
@@ -841,6 +845,12 @@ func clauseSite(prefix string, i int, c Clause) string {
 }
 
 func (x *Exec) checkInvariants(st *State, fr *Frame, l *Loop, lc *LoopContract, kind string) {
+	if x.label == "" && x.pureMode == 0 {
+		// implicit invariant: the loop respects the function's modifies clause
+		for _, fg := range x.frameGoals(st, fr, func(name string) string { return x.g.fresh("framep", "Addr") }) {
+			x.emit(st, "FRAME", fmt.Sprintf("loop%d.%s.%s", l.Ordinal, strings.ToLower(strings.TrimPrefix(kind, "INV-")), fg.comp), fg.formula, "memory outside the modifies clause is unchanged (implicit loop invariant)")
+		}
+	}
 	env := x.envFor(st, fr)
 	env.inLoop = l
 	for i, c := range lc.Invariants {
@@ -855,6 +865,11 @@ func (x *Exec) checkInvariants(st *State, fr *Frame, l *Loop, lc *LoopContract, 
 }
 
 func (x *Exec) assumeInvariants(st *State, fr *Frame, l *Loop, lc *LoopContract) {
+	if x.pureMode == 0 {
+		for _, fg := range x.frameGoals(st, fr, func(name string) string { return "p!f" }) {
+			st.assume(fmt.Sprintf("(forall ((p!f Addr)) (! %s :pattern ((select %s p!f))))", fg.formula, fg.cur))
+		}
+	}
 	env := x.envFor(st, fr)
 	env.inLoop = l
 	for _, c := range lc.Invariants {
@@ -916,6 +931,7 @@ func (x *Exec) havocLoop(st *State, fr *Frame, l *Loop, lc *LoopContract) {
 	// to; absent or unknown[comp] => the whole component is havocked
 	objRoots := map[string][]string{}
 	unknown := map[string]bool{}
+	callTags := map[string][]int{} // cells written by callees, identified by field tag
 	entryCounter := app("+", "fresh0", fmt.Sprint(st.nobj))
 	if st.nobjBase != "" {
 		entryCounter = app("+", st.nobjBase, fmt.Sprint(st.nobj))
@@ -988,9 +1004,10 @@ func (x *Exec) havocLoop(st *State, fr *Frame, l *Loop, lc *LoopContract) {
 				}
 				for c := range eff.comps {
 					comps[c] = true
-					if !eff.freshOnly {
+					if eff.untagged[c] || len(eff.tags[c]) == 0 {
 						unknown[c] = true
 					}
+					callTags[c] = append(callTags[c], eff.tags[c]...)
 				}
 				// places passed to inlined callees
 				for _, a := range n.Common().Args {
@@ -1061,6 +1078,13 @@ func (x *Exec) havocLoop(st *State, fr *Frame, l *Loop, lc *LoopContract) {
 			for _, o := range objRoots[c] {
 				ds = append(ds, snot(app("=", app("oid", "p!z"), app("oid", o))))
 			}
+			seenTag := map[int]bool{}
+			for _, tg := range callTags[c] {
+				if !seenTag[tg] {
+					seenTag[tg] = true
+					ds = append(ds, snot(sand("((_ is pfld) (path p!z))", app("=", app("pftag", app("path", "p!z")), fmt.Sprint(tg)))))
+				}
+			}
 			nv := st.heap[c]
 			st.assume(fmt.Sprintf("(forall ((p!z Addr)) (! (=> %s (= (select %s p!z) (select %s p!z))) :pattern ((select %s p!z))))", sand(ds...), nv, old, nv))
 		}
@@ -1114,7 +1138,9 @@ func (x *Exec) compsOfType(t types.Type, out map[string]bool) {
 type effects struct {
 	all       bool
 	comps     map[string]bool
-	freshOnly bool // writes only into objects allocated by the call itself (append)
+	tags      map[string][]int // component -> field tags of the cells a callee may write (x.f through a pointer)
+	untagged  map[string]bool  // component is (also) written at cells not identified by a field tag
+	freshOnly bool
 }
 
 // ---------- instruction semantics ----------
@@ -1535,6 +1561,20 @@ func (x *Exec) convert(st *State, n *ssa.Convert) {
 			st.assume(fmt.Sprintf("(forall ((k!c Int)) (! (=> (and (<= 0 k!c) (< k!c (slen %s))) (= (at %s k!c) (select %s (selem %s k!c)))) :pattern ((at %s k!c))))", v.S, s, cur, v.S, s))
 			fr.vals[n] = Val{S: s, Sort: "Str", T: n.Type()}
 			return
+		}
+		if sl, ok := from.(*types.Slice); ok {
+			if eb, isB := sl.Elem().Underlying().(*types.Basic); isB && eb.Kind() == types.Int32 {
+				// string([]rune): UTF-8 encoding; exact for ASCII runes
+				s := x.g.fresh("rstr", "Str")
+				_, cur := x.w.comp(st, "Int")
+				st.assume(app(">=", app("len", s), app("slen", v.S)))
+				st.assume(app("<=", app("len", s), app("*", "4", app("slen", v.S))))
+				ascii := fmt.Sprintf("(forall ((k!c Int)) (=> (and (<= 0 k!c) (< k!c (slen %s))) (and (<= 0 (select %s (selem %s k!c))) (< (select %s (selem %s k!c)) 128))))", v.S, cur, v.S, cur, v.S)
+				st.assume(app("=>", ascii, sand(app("=", app("len", s), app("slen", v.S)),
+					fmt.Sprintf("(forall ((k!c Int)) (! (=> (and (<= 0 k!c) (< k!c (slen %s))) (= (at %s k!c) (select %s (selem %s k!c)))) :pattern ((at %s k!c))))", v.S, s, cur, v.S, s))))
+				fr.vals[n] = Val{S: s, Sort: "Str", T: n.Type()}
+				return
+			}
 		}
 		unsup("conversion %s -> string", n.X.Type())
 	case fok && fb.Info()&types.IsString != 0:
